@@ -15,3 +15,4 @@ pub mod journal;
 pub mod core;
 pub mod worker;
 pub mod sched;
+pub mod sysw;
